@@ -609,11 +609,11 @@ var L2Kinds = []string{"stp", "snap", "ipx", "llc-i", "llc-s", "llc-short"}
 func LLC(r *rand.Rand, kind string) []byte {
 	switch kind {
 	case "stp":
-		return append([]byte{0x42, 0x42, 0x03}, RandBytes(r, 35)...)
+		return append([]byte{0x42, 0x42, 0x03}, RandBytes(r, pick(r, 35, 35, 35, 700, 1400))...) // a BPDU is 35 bytes; the length field allows 1500
 	case "snap":
-		return append([]byte{0xaa, 0xaa, 0x03, 0, 0, 0x0c, 0x20, 0x00}, RandBytes(r, r.Intn(40))...)
+		return append([]byte{0xaa, 0xaa, 0x03, 0, 0, 0x0c, 0x20, 0x00}, RandBytes(r, pick(r, r.Intn(40), r.Intn(40), 1200))...)
 	case "ipx":
-		return append([]byte{0xe0, 0xe0, 0x03}, RandBytes(r, 30)...)
+		return append([]byte{0xe0, 0xe0, 0x03}, RandBytes(r, pick(r, 30, 30, 1300))...)
 	case "llc-i":
 		return append([]byte{byte(r.Intn(256)), byte(r.Intn(256)), byte(r.Intn(128)) << 1}, RandBytes(r, r.Intn(20))...)
 	case "llc-s":
